@@ -311,76 +311,6 @@ def resourcePath (e : Env) (routes : Routes) (names : List Text) (elems : List T
     (rr : Option ResRoute) : Except Err Text :=
   resourceUrl e routes names elems { o with appUrl := some (quotedScriptName e) } rr
 
-/-! ### static assets -/
-
-/-- one entry of `StaticURLInfo.registrations` -/
-structure StaticReg where
-  url : Option Text       -- external base URL (ends with `/`), or none for a route-backed static view
-  spec : Text             -- asset spec prefix, ends with `/`
-  routeName : Text        -- `__<name>/` for a route-backed static view
-deriving Repr
-
-def subpathName : Text := ['s', 'u', 'b', 'p', 'a', 't', 'h']
-
-/-- a subpath on which `urljoin(base, quote(subpath))` is plain concatenation: every segment but possibly the
-last is non-empty, and none is `.` or `..` -/
-def cleanSubpath (sub : Text) : Bool :=
-  let segs := splitOn '/' sub
-  sub ≠ [] && segs.dropLast.all (fun s => s ≠ []) && segs.all (fun s => s ≠ ['.'] && s ≠ ['.', '.'])
-
-/-- `request.static_url(path, **kw)` for an already package-qualified asset spec -/
-def staticUrl (e : Env) (routes : Routes) (regs : List StaticReg) (path : Text) (o : Ovr) : Except Err Text :=
-  match regs.find? (fun r => r.spec.isPrefixOf path) with
-  | none => .error .noStatic
-  | some r =>
-    let sub := path.drop r.spec.length
-    match r.url with
-    | none => routeUrl e routes r.routeName [] [(subpathName, .one sub)] o
-    | some u =>
-      let base : Text := match u with
-        | '/' :: '/' :: _ => e.scheme ++ ':' :: u          -- `urlunparse(parsed._replace(scheme=request.scheme))`
-        | _ => u
-      if sub = [] then .ok (base ++ qsOf o.query ++ fragOf o.anchor o.anchorTruthy)
-      else if cleanSubpath sub then .ok (base ++ quote [47] sub ++ qsOf o.query ++ fragOf o.anchor o.anchorTruthy)
-      else .error .outside                                  -- urljoin's dot-segment / empty-segment handling
-
-/-- `request.static_path(…)`: `kw['_app_url'] = self._quoted_script_name()` -/
-def staticPath (e : Env) (routes : Routes) (regs : List StaticReg) (path : Text) (o : Ovr) : Except Err Text :=
-  staticUrl e routes regs path { o with appUrl := some (quotedScriptName e) }
-
-/-! ### the current route -/
-
-/-- what `current_route_url` reads from the request -/
-structure Cur where
-  matchedRoute : Option Text          -- `request.matched_route.name`
-  matchdict : Kw
-  get : List (Text × Text)            -- `request.GET.items()`
-deriving Repr
-
-/-- the route `current_route_url` generates for: `_route_name` if passed, else the matched route -/
-def curRouteName (cur : Cur) (routeName : Option Text) : Option Text :=
-  match routeName with
-  | some n => some n
-  | none => cur.matchedRoute
-
-/-- the `_query` `current_route_url` uses: the one passed, else the request's GET items -/
-def curQuery (cur : Cur) (q : Query) : Query :=
-  match q with
-  | .absent => .pairs (cur.get.map fun kv => (kv.1, QVal.one kv.2))
-  | q => q
-
-/-- `request.current_route_url(*elements, **kw)`; `routeName` is the `_route_name` argument -/
-def currentRouteUrl (e : Env) (routes : Routes) (cur : Cur) (routeName : Option Text) (elems : List Text)
-    (kw : Kw) (o : Ovr) : Except Err Text :=
-  match curRouteName cur routeName with
-  | none => .error .noCurrentRoute
-  | some n => routeUrl e routes n elems (kw ++ cur.matchdict) { o with query := curQuery cur o.query }
-
-/-- `request.current_route_path(…)` -/
-def currentRoutePath (e : Env) (routes : Routes) (cur : Cur) (routeName : Option Text) (elems : List Text)
-    (kw : Kw) (o : Ovr) : Except Err Text :=
-  currentRouteUrl e routes cur routeName elems kw { o with appUrl := some (quotedScriptName e) }
-
 /-! ### the standard parser (specification side): `urllib.parse` -/
 
 structure Split where
@@ -518,6 +448,132 @@ def parseQsl (qs : Text) : Option (List (Text × Text)) :=
 def lastSegments (path : Text) (n : Nat) : Option (List Text) :=
   let segs := splitOn '/' path
   (segs.drop (segs.length - n)).mapM unquote
+
+/-! ### `urllib.parse.urljoin` (used by the external static branch) -/
+
+/-- `urllib.parse.urlunsplit` -/
+def urlunsplit (scheme netloc path query fragment : Text) : Text :=
+  let usesNetloc := scheme ≠ []       -- every scheme admitted below is in `uses_netloc`
+  let url : Text :=
+    if netloc ≠ [] || (usesNetloc && (path.take 2 != ['/', '/'])) then
+      ['/', '/'] ++ netloc ++ (if path ≠ [] && path.head? != some '/' then '/' :: path else path)
+    else path
+  let url := if scheme ≠ [] then scheme ++ ':' :: url else url
+  let url := if query ≠ [] then url ++ '?' :: query else url
+  if fragment ≠ [] then url ++ '#' :: fragment else url
+
+/-- schemes in both `uses_relative` and `uses_netloc` that a static base URL may have -/
+def relativeSchemes : List Text := [sHttp, sHttps, ['f', 't', 'p'], ['w', 's'], ['w', 's', 's']]
+
+/-- the `segments[1:-1] = filter(None, segments[1:-1])` step -/
+def dropEmptyMiddle : List Text → List Text
+  | [] => []
+  | h :: t => h :: (t.dropLast.filter (fun s => !s.isEmpty)) ++ t.getLast?.toList
+
+/-- one round of the dot-segment loop; the resolved path is kept in order -/
+def dotStep (acc : List Text) (seg : Text) : List Text :=
+  if seg = ['.', '.'] then acc.dropLast
+  else if seg = ['.'] then acc
+  else acc ++ [seg]
+
+/-- the path of `urljoin` when the reference has a non-empty path and no netloc -/
+def joinPaths (bpath path : Text) : Text :=
+  let baseParts0 := splitOn '/' bpath
+  let baseParts := if baseParts0.getLast? != some [] then baseParts0.dropLast else baseParts0
+  let segments := if path.head? = some '/' then splitOn '/' path else dropEmptyMiddle (baseParts ++ splitOn '/' path)
+  let resolved := segments.foldl dotStep []
+  let resolved := if segments.getLast? = some ['.'] || segments.getLast? = some ['.', '.'] then resolved ++ [[]] else resolved
+  let p := joinWith '/' resolved
+  if p = [] then ['/'] else p
+
+/-- `urllib.parse.urljoin(base, url)` for a base and a reference without `;params`; `outside` otherwise, and when
+the base is not `scheme://netloc…` with a scheme of `relativeSchemes` -/
+def urljoin (base url : Text) : Except Err Text :=
+  if base = [] then .ok url
+  else if url = [] then .ok base
+  else
+    match urlsplit base, urlsplit url with
+    | some b, some u =>
+      if b.path.contains ';' || u.path.contains ';' then .error .outside
+      else
+        let scheme := if u.scheme = [] then b.scheme else u.scheme
+        if scheme ≠ b.scheme then .ok url                      -- (also `scheme not in uses_relative`)
+        else if !relativeSchemes.contains scheme then .error .outside
+        else if u.netloc ≠ [] then .ok (urlunsplit scheme u.netloc u.path u.query u.fragment)
+        else if u.path = [] then
+          .ok (urlunsplit scheme b.netloc b.path (if u.query = [] then b.query else u.query) u.fragment)
+        else .ok (urlunsplit scheme b.netloc (joinPaths b.path u.path) u.query u.fragment)
+    | _, _ => .error .outside                                   -- ValueError from the parser
+
+/-! ### static assets -/
+
+/-- one entry of `StaticURLInfo.registrations` -/
+structure StaticReg where
+  url : Option Text       -- external base URL (ends with `/`), or none for a route-backed static view
+  spec : Text             -- asset spec prefix, ends with `/`
+  routeName : Text        -- `__<name>/` for a route-backed static view
+deriving Repr
+
+def subpathName : Text := ['s', 'u', 'b', 'p', 'a', 't', 'h']
+
+/-- the registered base URL, with the request's scheme when it was registered protocol-relative (`//cdn…`):
+`urlunparse(parsed._replace(scheme=request.scheme))` when `urlparse(url).scheme` is empty -/
+def staticBase (e : Env) (u : Text) : Text :=
+  match u with
+  | '/' :: '/' :: _ => e.scheme ++ ':' :: u
+  | _ => u
+
+/-- `request.static_url(path, **kw)` for an already package-qualified asset spec -/
+def staticUrl (e : Env) (routes : Routes) (regs : List StaticReg) (path : Text) (o : Ovr) : Except Err Text :=
+  match regs.find? (fun r => r.spec.isPrefixOf path) with
+  | none => .error .noStatic
+  | some r =>
+    let sub := path.drop r.spec.length
+    match r.url with
+    | none => routeUrl e routes r.routeName [] [(subpathName, .one sub)] o
+    | some u =>
+      let base : Text := staticBase e u
+      -- `subpath = quote(subpath)` (urllib's default safe '/'), `urljoin(url, subpath)`, `+ qs + anchor`
+      match urljoin base (quote [47] sub) with
+      | .ok r => .ok (r ++ qsOf o.query ++ fragOf o.anchor o.anchorTruthy)
+      | .error er => .error er
+
+/-- `request.static_path(…)`: `kw['_app_url'] = self._quoted_script_name()` -/
+def staticPath (e : Env) (routes : Routes) (regs : List StaticReg) (path : Text) (o : Ovr) : Except Err Text :=
+  staticUrl e routes regs path { o with appUrl := some (quotedScriptName e) }
+
+/-! ### the current route -/
+
+/-- what `current_route_url` reads from the request -/
+structure Cur where
+  matchedRoute : Option Text          -- `request.matched_route.name`
+  matchdict : Kw
+  get : List (Text × Text)            -- `request.GET.items()`
+deriving Repr
+
+/-- the route `current_route_url` generates for: `_route_name` if passed, else the matched route -/
+def curRouteName (cur : Cur) (routeName : Option Text) : Option Text :=
+  match routeName with
+  | some n => some n
+  | none => cur.matchedRoute
+
+/-- the `_query` `current_route_url` uses: the one passed, else the request's GET items -/
+def curQuery (cur : Cur) (q : Query) : Query :=
+  match q with
+  | .absent => .pairs (cur.get.map fun kv => (kv.1, QVal.one kv.2))
+  | q => q
+
+/-- `request.current_route_url(*elements, **kw)`; `routeName` is the `_route_name` argument -/
+def currentRouteUrl (e : Env) (routes : Routes) (cur : Cur) (routeName : Option Text) (elems : List Text)
+    (kw : Kw) (o : Ovr) : Except Err Text :=
+  match curRouteName cur routeName with
+  | none => .error .noCurrentRoute
+  | some n => routeUrl e routes n elems (kw ++ cur.matchdict) { o with query := curQuery cur o.query }
+
+/-- `request.current_route_path(…)` -/
+def currentRoutePath (e : Env) (routes : Routes) (cur : Cur) (routeName : Option Text) (elems : List Text)
+    (kw : Kw) (o : Ovr) : Except Err Text :=
+  currentRouteUrl e routes cur routeName elems kw { o with appUrl := some (quotedScriptName e) }
 
 /-! ### the declarative reading of the property (what a caller is entitled to expect) -/
 
